@@ -225,7 +225,7 @@ every run); every other message is classified by `valueMoving` as not value-movi
 breaks `MW.Interface.staking_execute_eq` -/
 theorem value_moving_are_source_messages :
     (MW.Interface.execSamples.filter valueMoving).map MW.Interface.execTag
-      = ["liquid_stake", "liquid_unstake", "submit_batch", "withdraw", "receive_rewards", "receive_unstaked_tokens"]
+      = ["liquid_stake", "liquid_unstake", "receive_rewards", "receive_unstaked_tokens", "submit_batch", "withdraw"]
     ∧ MW.Interface.names MW.Generated.Interface.staking_execute = MW.Interface.execSamples.map MW.Interface.execTag :=
   ⟨by decide +kernel, MW.Interface.staking_execute_covered.1⟩
 
